@@ -461,6 +461,63 @@ def ref_clauses(repo, fi: FuncInfo, name: str):
     return out
 
 
+def _same_predicate(got, want) -> bool:
+    """the two conjunctions are the same boolean function of their comparisons.  Every comparison is `e <op> 0` for some expression e;
+    comparisons over the same e (up to sign) are tied together through the sign of e (negative / zero / positive), different
+    expressions are treated as independent (so a `True` here is a proof; a `False` only means the clause sets have to match)"""
+    import itertools
+
+    bases, flags = {}, {}
+
+    def leaves(c):
+        if isinstance(c, tuple) and c and c[0] in ("and", "or", "not"):
+            for x in c[1:]:
+                leaves(x)
+        elif isinstance(c, tuple) and c and c[0] == "cmp":
+            try:
+                a, b = repr(c[2]), repr(-c[2])
+            except Exception:
+                flags.setdefault(repr(c), None)
+                return
+            bases.setdefault(min(a, b), None)
+        elif isinstance(c, bool):
+            pass
+        else:
+            flags.setdefault(repr(c), None)
+
+    for c in list(got) + list(want):
+        leaves(c)
+    if 3 ** len(bases) * 2 ** len(flags) > 60000:
+        return False
+    bk, fk = sorted(bases), sorted(flags)
+
+    def ev(c, sb, fb):
+        if isinstance(c, bool):
+            return c
+        if isinstance(c, tuple) and c and c[0] == "and":
+            return all(ev(x, sb, fb) for x in c[1:])
+        if isinstance(c, tuple) and c and c[0] == "or":
+            return any(ev(x, sb, fb) for x in c[1:])
+        if isinstance(c, tuple) and c and c[0] == "not":
+            return not ev(c[1], sb, fb)
+        if isinstance(c, tuple) and c and c[0] == "cmp":
+            try:
+                a, b = repr(c[2]), repr(-c[2])
+            except Exception:
+                return fb[repr(c)]
+            s = sb[min(a, b)] * (1 if a <= b else -1)
+            return {"<": s < 0, "<=": s <= 0, ">": s > 0, ">=": s >= 0, "==": s == 0, "!=": s != 0}[c[1]]
+        return fb[repr(c)]
+
+    for signs in itertools.product((-1, 0, 1), repeat=len(bk)):
+        sb = dict(zip(bk, signs))
+        for bits in itertools.product((False, True), repeat=len(fk)):
+            fb = dict(zip(fk, bits))
+            if all(ev(c, sb, fb) for c in got) != all(ev(c, sb, fb) for c in want):
+                return False
+    return True
+
+
 def check_patterns(res: Result, repo):
     rule = "R-CLAUSES"
     pm = repo.dict_literal("hexital.analysis", "PATTERN_MAP")
@@ -476,7 +533,7 @@ def check_patterns(res: Result, repo):
         want = ref_clauses(repo, fi, fi.name)
         gs = {repr(_norm_cond(c)) for c in got}
         ws = {repr(_norm_cond(c)) for c in want}
-        if gs == ws:
+        if gs == ws or _same_predicate(got, want):
             res.ok(rule, {"pattern": fi.name, "clauses": len(got), "documented": PATTERN_CLAUSES[fi.name]}, nontrivial=fi.name)
         else:
             missing = [PATTERN_CLAUSES[fi.name][k][:90] for k, c in enumerate(want) if repr(_norm_cond(c)) not in gs]
